@@ -2,6 +2,7 @@
 From Coq Require Import String ZArith List Bool.
 From FcpV Require Import Base.Bits Schema.Types Wire.Wire Wire.WireProofs Py.PySerde Py.PySerdeProofs.
 From FcpV Require Import Py.BufferLib gen.PyBuffer Py.BufferProofs gen.PyLeaf Py.LeafProofs.
+From FcpV Require Import Py.DispatchLib Py.DispatchDefs Py.DispatchProofs Py.DispatchExample.
 Import ListNotations.
 Open Scope Z_scope.
 
@@ -111,3 +112,39 @@ Theorem source_decodes_signed_min_as_positive :
 Proof. exact decode_signed_min_positive.
 Qed.
 Print Assumptions source_decodes_signed_min_as_positive.
+
+(* ---- serde.py END TO END (gen/PyBuffer.v + gen/PyLeaf.v + gen/PyDispatch.v: every function of the file, translated from the
+   source on every run).  The translated encode() and decode() are run on the Python image [embed t v] of a value:
+   decode(encode(x)) = x for every schema with unique struct names and unique field names, every struct, every in-range value
+   whose signed leaves are not the minimum and that Python can represent (no Some(None)); fuel = Python's recursion depth. *)
+Theorem source_roundtrip :
+  forall sc, NoDup (map sname (structs sc)) ->
+  forall name t v fuel,
+    resolve sc name = Some t -> uniq t -> repr t v = true -> (depth t <= S fuel)%nat -> has_type_gen py_okS t v = true ->
+    exists bytes, PyDispatch.py_encode fuel sc name (embed t v) = POk bytes /\
+                  PyDispatch.py_decode fuel sc name bytes = POk (embed t v).
+Proof. exact translated_roundtrip. Qed.
+Print Assumptions source_roundtrip.
+
+(* the hand-written model the other theorems of this file are about IS the translated source: same bytes, same outcome *)
+Theorem source_encode_is_model :
+  forall sc, NoDup (map sname (structs sc)) ->
+  forall name t v bytes fuel,
+    resolve sc name = Some t -> uniq t -> repr t v = true -> (depth t <= S fuel)%nat ->
+    py_encode sc name v = Some bytes -> PyDispatch.py_encode fuel sc name (embed t v) = POk bytes.
+Proof. exact translated_encode_is_model. Qed.
+Print Assumptions source_encode_is_model.
+
+Theorem source_decode_is_model :
+  forall sc, NoDup (map sname (structs sc)) ->
+  forall name t data fuel,
+    resolve sc name = Some t -> uniq t -> (depth t <= S fuel)%nat -> Forall byte_ok data ->
+    exists o, py_decode sc name data = Some o /\
+              PyDispatch.py_decode fuel sc name data = match o with Ok v => POk (embed t v) | Raise e => PRaise (exn_py e) end.
+Proof. exact translated_decode_is_model. Qed.
+Print Assumptions source_decode_is_model.
+
+Example c01_source_nonvacuous :
+  NoDup (map sname (structs ex_sc)) /\ resolve ex_sc "M" = Some ex_t /\ uniq ex_t /\ repr ex_t ex_v = true /\
+  (depth ex_t <= S 8)%nat /\ has_type_gen py_okS ex_t ex_v = true.
+Proof. exact hypotheses_nonvacuous. Qed.
